@@ -17,6 +17,7 @@ import (
 //
 //   //@ static writers Type.field : f1, f2, ...             [tags]
 //   //@ static stores-true Type.field : f1, ...             [tags]
+//   //@ static monotone-flag Type.field : allowed1, ...      [tags]   (plain bool field only ever set to true)
 //   //@ static callfree e1, e2 : forbidden1, forbidden2 through g1, g2   [tags]
 
 type StaticCheck struct {
@@ -202,6 +203,31 @@ func (p *Program) runStatic(sc *StaticCheck) *Obligation {
 					}
 					if !isFalse && !contains(sc.Allowed, top) {
 						note(fn, "may store true into "+f)
+					}
+				}
+			}
+		}
+	case "monotone-flag":
+		// every plain store into the boolean field, in any function of the package outside the allowed list,
+		// stores the constant true: once set the flag stays set
+		for _, fn := range p.pkgFunctions(sc.PkgPath) {
+			top := fnShort(topFunction(fn))
+			for _, b := range fn.Blocks {
+				for _, ins := range b.Instrs {
+					st, ok := ins.(*ssa.Store)
+					if !ok {
+						continue
+					}
+					f := fieldName(st.Addr)
+					if f == "" || !contains(sc.Subject, f) {
+						continue
+					}
+					isTrue := false
+					if k, ok := st.Val.(*ssa.Const); ok && k.Value != nil && k.Value.Kind() == constant.Bool && constant.BoolVal(k.Value) {
+						isTrue = true
+					}
+					if !isTrue && !contains(sc.Allowed, top) {
+						note(fn, "may store a value other than true into "+f)
 					}
 				}
 			}
